@@ -82,6 +82,8 @@ type PoolOpts struct {
 	MemLimit    uint64        // RLIMIT_AS of the workers (0 = 4 GiB)
 	CaseTimeout time.Duration // watchdog per case (a hang is reported, never a silent pass)
 	ExtraArgs   []string
+	Deadline    time.Time // zero = none; after it no new case is handed out
+	Order       func(k int) int // optional: k-th case to hand out (a permutation of [0,n))
 }
 
 type ringBuf struct {
@@ -108,15 +110,40 @@ func (r *ringBuf) String() string {
 	return string(r.buf)
 }
 
-var (
-	reFrame = regexp.MustCompile(`(?m)^(github\.com/bluenviron/mediamtx/internal/[^\s(]+|github\.com/[^\s(]+|[a-z]+[^\s(]*)\(`)
-)
 
 // classifyDeath fills Kind/Msg/Frame from the stderr of the dead worker.
 func classifyDeath(d *Death, stderr string) {
 	d.StderrTl = stderr
 	if len(d.StderrTl) > 3000 {
 		d.StderrTl = d.StderrTl[:3000]
+	}
+	if d.Timeout {
+		// the interesting goroutine of a hang is the one inside the repository's handlers
+		for _, blk := range strings.Split(stderr, "\n\n") {
+			if strings.Contains(blk, "mediamtx/internal/playback.") || strings.Contains(blk, "mediamtx/internal/api.") {
+				if strings.Contains(blk, "[running]") || strings.Contains(blk, "[runnable]") || !strings.Contains(blk, "ListenAndServe") {
+					d.Kind = "timeout"
+					d.Msg = "no answer"
+					for _, l := range strings.Split(blk, "\n") {
+						if l == "" || l[0] == '\t' || strings.HasPrefix(l, "goroutine ") || strings.HasPrefix(l, "created by ") {
+							continue
+						}
+						if i := strings.LastIndexByte(l, '('); i > 0 {
+							f := l[:i]
+							if !strings.HasPrefix(f, "runtime.") && !strings.HasPrefix(f, "internal/") && !strings.HasPrefix(f, "syscall.") && !strings.HasPrefix(f, "os.") {
+								d.Frame = strings.TrimPrefix(f, "github.com/bluenviron/mediamtx/internal/")
+								break
+							}
+						}
+					}
+					if len(blk) > 2500 {
+						blk = blk[:2500]
+					}
+					d.StderrTl = blk
+					return
+				}
+			}
+		}
 	}
 	lines := strings.Split(stderr, "\n")
 	start := -1
@@ -171,8 +198,16 @@ func classifyDeath(d *Death, stderr string) {
 	if i := strings.Index(rest, "\n\n"); i >= 0 {
 		rest = rest[:i]
 	}
-	for _, m := range reFrame.FindAllStringSubmatch(rest, -1) {
-		f := m[1]
+	var frames []string
+	for _, l := range strings.Split(rest, "\n") {
+		if l == "" || l[0] == '\t' || l[0] == ' ' || strings.HasPrefix(l, "goroutine ") || strings.HasPrefix(l, "created by ") {
+			continue
+		}
+		if i := strings.LastIndexByte(l, '('); i > 0 {
+			frames = append(frames, l[:i])
+		}
+	}
+	for _, f := range frames {
 		if strings.Contains(f, "handlerExitOnPanic") {
 			d.Goexit = true
 			continue
@@ -188,8 +223,7 @@ func classifyDeath(d *Death, stderr string) {
 	}
 	if d.Frame == "" {
 		// fall back to the first non-runtime frame
-		for _, m := range reFrame.FindAllStringSubmatch(rest, -1) {
-			f := m[1]
+		for _, f := range frames {
 			if strings.HasPrefix(f, "runtime.") || strings.HasPrefix(f, "panic") || strings.Contains(f, "handlerExitOnPanic") {
 				continue
 			}
@@ -223,7 +257,11 @@ func startChild(o PoolOpts) (*child, error) {
 	rb := &ringBuf{}
 	cmd.Stderr = rb
 	cmd.Stdout = rb
-	cmd.Env = append(os.Environ(), "GOTRACEBACK=all", "GOMAXPROCS=4", "GIN_MODE=release")
+	procs := os.Getenv("VERIF_WORKER_GOMAXPROCS")
+	if procs == "" {
+		procs = "2"
+	}
+	cmd.Env = append(os.Environ(), "GOTRACEBACK=all", "GOMAXPROCS="+procs, "GIN_MODE=release")
 	stdin, err := cmd.StdinPipe()
 	if err != nil {
 		return nil, err
@@ -242,8 +280,9 @@ func (c *child) kill() {
 }
 
 // RunPool evaluates cases [0,n) in worker subprocesses; onResult is called (serialised) for
-// every case. It returns an error only for harness-level failures (worker cannot start).
-func RunPool(o PoolOpts, n int, onResult func(CaseResult)) error {
+// every case. It returns the number of cases handed out (== n unless the deadline was hit) and
+// an error only for harness-level failures (worker cannot start).
+func RunPool(o PoolOpts, n int, onResult func(CaseResult)) (int, error) {
 	if o.Workers <= 0 {
 		o.Workers = 16
 	}
@@ -261,10 +300,51 @@ func RunPool(o PoolOpts, n int, onResult func(CaseResult)) error {
 		if next >= n {
 			return -1
 		}
+		if !o.Deadline.IsZero() && time.Now().After(o.Deadline) {
+			return -1
+		}
 		i := next
 		next++
+		if o.Order != nil {
+			return o.Order(i)
+		}
 		return i
 	}
+	// warm spares: a replacement for a dead worker is ready before it is needed
+	// (process start-up of this binary costs about a second of package initialisation)
+	spares := make(chan *child, 3)
+	stopSpares := make(chan struct{})
+	var spareWG sync.WaitGroup
+	spareWG.Add(1)
+	go func() {
+		defer spareWG.Done()
+		for {
+			c, err := startChild(o)
+			if err != nil {
+				return
+			}
+			select {
+			case spares <- c:
+			case <-stopSpares:
+				c.stdin.Close()
+				c.kill()
+				return
+			}
+		}
+	}()
+	defer func() {
+		close(stopSpares)
+		spareWG.Wait()
+		for {
+			select {
+			case c := <-spares:
+				c.stdin.Close()
+				c.kill()
+			default:
+				return
+			}
+		}
+	}()
 	var resMu sync.Mutex
 	var firstErr error
 	var wg sync.WaitGroup
@@ -287,7 +367,11 @@ func RunPool(o PoolOpts, n int, onResult func(CaseResult)) error {
 				}
 				if c == nil {
 					var err error
-					c, err = startChild(o)
+					select {
+					case c = <-spares:
+					case <-time.After(30 * time.Second):
+						c, err = startChild(o)
+					}
 					if err != nil {
 						resMu.Lock()
 						if firstErr == nil {
@@ -320,7 +404,10 @@ func RunPool(o PoolOpts, n int, onResult func(CaseResult)) error {
 		}()
 	}
 	wg.Wait()
-	return firstErr
+	mu.Lock()
+	done := next
+	mu.Unlock()
+	return done, firstErr
 }
 
 func runCase(c *child, i int, timeout time.Duration) (CaseResult, bool) {
